@@ -1,10 +1,13 @@
 (* C01 - every data transform is invertible on its domain.
-   Statements only; every proof is `exact <lemma of Proofs/TransformProofs.v>`.
+   Statements only; every proof is `exact <lemma(s) of Proofs/TransformProofs.v>`.
    All theorems are over the real numbers, for ALL parameter values inside the
    bounds re-extracted from transform.py (Gen/ConstsC01.v) - including the exact
    branch values lam = 0, |lam| = EPS, lam = 2 - all constructor options and all
    points of the stated domain.  The floating-point clause ("to 1e-6") is
-   tested on the implementation, not proved. *)
+   tested on the implementation, not proved.
+   One theorem per class (both directions in one conjunction: `Print
+   Assumptions` over the real-number library costs about a second each); the
+   non-vacuity instances of all hypotheses are gathered in C01_nonvacuous. *)
 From Coq Require Import Reals List Bool.
 From Coquelicot Require Import Rbar.
 From Hy Require Import Base.Num Gen.ConstsC01 Model.Transform Proofs.TransformProofs.
@@ -12,266 +15,210 @@ Import ListNotations.
 Open Scope R_scope.
 
 (* ---- Identity ---- *)
-Theorem C01_identity_bwd_fwd : forall x, id_bwd (id_fwd x) = x.
-Proof. exact id_bwd_fwd. Qed.
-Print Assumptions C01_identity_bwd_fwd.
-Theorem C01_identity_fwd_bwd : forall y, id_fwd (id_bwd y) = y.
-Proof. exact id_fwd_bwd. Qed.
-Print Assumptions C01_identity_fwd_bwd.
+Theorem C01_identity_invertible :
+  (forall x, id_bwd (id_fwd x) = x) /\ (forall y, id_fwd (id_bwd y) = y).
+Proof. exact (conj id_bwd_fwd id_fwd_bwd). Qed.
+Print Assumptions C01_identity_invertible.
 
-(* ---- Logit : domain lower < x < lower + exp logdelta ; image = all reals ---- *)
-Theorem C01_logit_bwd_fwd : forall lower logdelta x,
-  lower < x < lower + exp logdelta ->
-  logit_bwd lower logdelta (logit_fwd lower logdelta x) = x.
-Proof. exact logit_bwd_fwd. Qed.
-Print Assumptions C01_logit_bwd_fwd.
-Theorem C01_logit_fwd_bwd : forall lower logdelta y,
-  logit_fwd lower logdelta (logit_bwd lower logdelta y) = y.
-Proof. exact logit_fwd_bwd. Qed.
-Print Assumptions C01_logit_fwd_bwd.
-Theorem C01_logit_bwd_range : forall lower logdelta y,
-  lower < logit_bwd lower logdelta y < lower + exp logdelta.
-Proof. exact logit_bwd_range. Qed.
-Print Assumptions C01_logit_bwd_range.
-Example C01_logit_nonvacuous : logit_params_ok 0 0 /\ 0 < 1 / 2 < 0 + exp 0.
-Proof. exact ex_logit. Qed.
-Print Assumptions C01_logit_nonvacuous.
+(* ---- Logit : domain lower < x < lower + exp logdelta ; image = all reals,
+   and backward lands in the domain ---- *)
+Theorem C01_logit_invertible :
+  (forall lower logdelta x, lower < x < lower + exp logdelta ->
+     logit_bwd lower logdelta (logit_fwd lower logdelta x) = x) /\
+  (forall lower logdelta y, logit_fwd lower logdelta (logit_bwd lower logdelta y) = y) /\
+  (forall lower logdelta y, lower < logit_bwd lower logdelta y < lower + exp logdelta).
+Proof. exact (conj logit_bwd_fwd (conj logit_fwd_bwd logit_bwd_range)). Qed.
+Print Assumptions C01_logit_invertible.
 
-(* ---- Log : any base > 0, <> 1 (or natural log) ; domain 0 < x + nu ---- *)
-Theorem C01_log_bwd_fwd : forall base nu x,
-  log_base_ok base -> 0 < x + nu ->
-  log_bwd (log_basefactor base) nu (log_fwd (log_basefactor base) nu x) = x.
-Proof. exact log_bwd_fwd. Qed.
-Print Assumptions C01_log_bwd_fwd.
-Theorem C01_log_fwd_bwd : forall base nu y,
-  log_base_ok base ->
-  log_fwd (log_basefactor base) nu (log_bwd (log_basefactor base) nu y) = y.
-Proof. exact log_fwd_bwd. Qed.
-Print Assumptions C01_log_fwd_bwd.
-Example C01_log_nonvacuous :
-  log_base_ok (Some 10) /\ log_base_ok None /\ log_params_ok EPS EPS /\ 0 < 1 + EPS.
-Proof. exact ex_log. Qed.
-Print Assumptions C01_log_nonvacuous.
+(* ---- Log : any base > 0, <> 1 (or the natural logarithm) ; domain 0 < x + nu ---- *)
+Theorem C01_log_invertible :
+  (forall base nu x, log_base_ok base -> 0 < x + nu ->
+     log_bwd (log_basefactor base) nu (log_fwd (log_basefactor base) nu x) = x) /\
+  (forall base nu y, log_base_ok base ->
+     log_fwd (log_basefactor base) nu (log_bwd (log_basefactor base) nu y) = y).
+Proof. exact (conj log_bwd_fwd log_fwd_bwd). Qed.
+Print Assumptions C01_log_invertible.
 
-(* ---- BoxCox2 : every lam (both sides of the EPS switch, lam = 0) ; 0 < x + nu ---- *)
-Theorem C01_boxcox2_bwd_fwd : forall nu lam x,
-  0 < x + nu -> bc2_bwd nu lam (bc2_fwd nu lam x) = x.
-Proof. exact bc2_bwd_fwd. Qed.
-Print Assumptions C01_boxcox2_bwd_fwd.
-Theorem C01_boxcox2_fwd_bwd : forall nu lam y,
-  (EPS < Rabs lam -> 0 < lam * y + 1) ->
-  bc2_fwd nu lam (bc2_bwd nu lam y) = y.
-Proof. exact bc2_fwd_bwd. Qed.
-Print Assumptions C01_boxcox2_fwd_bwd.
-Example C01_boxcox2_nonvacuous :
-  bc2_params_ok EPS 0 EPS 0 /\ bc2_params_ok EPS 0 EPS EPS /\ bc2_params_ok EPS 0 EPS (2 * EPS) /\
-  0 < 1 + EPS /\ Rltb EPS (Rabs 0) = false /\ Rltb EPS (Rabs EPS) = false /\
-  Rltb EPS (Rabs (2 * EPS)) = true.
-Proof. exact ex_bc2. Qed.
-Print Assumptions C01_boxcox2_nonvacuous.
-Example C01_boxcox2_image_nonvacuous :
-  (EPS < Rabs 1 -> 0 < 1 * 1 + 1) /\ (EPS < Rabs 0 -> 0 < 0 * 1 + 1).
-Proof. exact ex_bc2_image. Qed.
-Print Assumptions C01_boxcox2_image_nonvacuous.
+(* ---- BoxCox2 : EVERY lam (lam = 0, both sides of the EPS switch) ; 0 < x + nu ;
+   on the image the argument of the root is positive; backward lands in the domain ---- *)
+Theorem C01_boxcox2_invertible :
+  (forall nu lam x, 0 < x + nu -> bc2_bwd nu lam (bc2_fwd nu lam x) = x) /\
+  (forall nu lam y, (EPS < Rabs lam -> 0 < lam * y + 1) ->
+     bc2_fwd nu lam (bc2_bwd nu lam y) = y) /\
+  (forall nu lam y, 0 < bc2_bwd nu lam y + nu).
+Proof. exact (conj bc2_bwd_fwd (conj bc2_fwd_bwd bc2_bwd_in_domain)). Qed.
+Print Assumptions C01_boxcox2_invertible.
 
-(* ---- BoxCox1lam / BoxCox1nu : the inner BoxCox2 is re-synchronised (clipped to its
-   own bounds) on every call; inside the extracted bounds this is the identity ---- *)
-Theorem C01_boxcox1lam_delegates : forall mininu minilam nu lam,
+(* ---- BoxCox1lam / BoxCox1nu : the inner BoxCox2 is re-synchronised (its values
+   clipped to its own bounds) on every call; inside the extracted bounds this
+   is the identity, so the three methods are those of BoxCox2 ---- *)
+Theorem C01_boxcox1lam_invertible : forall mininu minilam nu lam,
   bc1lam_params_ok mininu minilam nu lam ->
-  (forall x, bc1lam_fwd mininu minilam nu lam x = bc2_fwd nu lam x) /\
-  (forall y, bc1lam_bwd mininu minilam nu lam y = bc2_bwd nu lam y) /\
-  (forall x, bc1lam_jac mininu minilam nu lam x = bc2_jac mininu nu lam x).
-Proof. exact bc1lam_is_bc2. Qed.
-Print Assumptions C01_boxcox1lam_delegates.
-Theorem C01_boxcox1lam_bwd_fwd : forall mininu minilam nu lam x,
-  bc1lam_params_ok mininu minilam nu lam -> 0 < x + nu ->
-  bc1lam_bwd mininu minilam nu lam (bc1lam_fwd mininu minilam nu lam x) = x.
-Proof. exact bc1lam_bwd_fwd. Qed.
-Print Assumptions C01_boxcox1lam_bwd_fwd.
-Theorem C01_boxcox1lam_fwd_bwd : forall mininu minilam nu lam y,
-  bc1lam_params_ok mininu minilam nu lam -> (EPS < Rabs lam -> 0 < lam * y + 1) ->
-  bc1lam_fwd mininu minilam nu lam (bc1lam_bwd mininu minilam nu lam y) = y.
-Proof. exact bc1lam_fwd_bwd. Qed.
-Print Assumptions C01_boxcox1lam_fwd_bwd.
-Theorem C01_boxcox1nu_delegates : forall mininu minilam nu lam,
+  ((forall x, bc1lam_fwd mininu minilam nu lam x = bc2_fwd nu lam x) /\
+   (forall y, bc1lam_bwd mininu minilam nu lam y = bc2_bwd nu lam y) /\
+   (forall x, bc1lam_jac mininu minilam nu lam x = bc2_jac mininu nu lam x)) /\
+  (forall x, 0 < x + nu ->
+     bc1lam_bwd mininu minilam nu lam (bc1lam_fwd mininu minilam nu lam x) = x) /\
+  (forall y, (EPS < Rabs lam -> 0 < lam * y + 1) ->
+     bc1lam_fwd mininu minilam nu lam (bc1lam_bwd mininu minilam nu lam y) = y).
+Proof.
+  intros mininu minilam nu lam H.
+  exact (conj (bc1lam_is_bc2 _ _ _ _ H)
+          (conj (fun x => bc1lam_bwd_fwd _ _ _ _ x H) (fun y => bc1lam_fwd_bwd _ _ _ _ y H))).
+Qed.
+Print Assumptions C01_boxcox1lam_invertible.
+
+Theorem C01_boxcox1nu_invertible : forall mininu minilam nu lam,
   bc1nu_params_ok mininu minilam nu lam ->
-  (forall x, bc1nu_fwd mininu minilam nu lam x = bc2_fwd nu lam x) /\
-  (forall y, bc1nu_bwd mininu minilam nu lam y = bc2_bwd nu lam y) /\
-  (forall x, bc1nu_jac mininu minilam nu lam x = bc2_jac mininu nu lam x).
-Proof. exact bc1nu_is_bc2. Qed.
-Print Assumptions C01_boxcox1nu_delegates.
-Theorem C01_boxcox1nu_bwd_fwd : forall mininu minilam nu lam x,
-  bc1nu_params_ok mininu minilam nu lam -> 0 < x + nu ->
-  bc1nu_bwd mininu minilam nu lam (bc1nu_fwd mininu minilam nu lam x) = x.
-Proof. exact bc1nu_bwd_fwd. Qed.
-Print Assumptions C01_boxcox1nu_bwd_fwd.
-Theorem C01_boxcox1nu_fwd_bwd : forall mininu minilam nu lam y,
-  bc1nu_params_ok mininu minilam nu lam -> (EPS < Rabs lam -> 0 < lam * y + 1) ->
-  bc1nu_fwd mininu minilam nu lam (bc1nu_bwd mininu minilam nu lam y) = y.
-Proof. exact bc1nu_fwd_bwd. Qed.
-Print Assumptions C01_boxcox1nu_fwd_bwd.
+  ((forall x, bc1nu_fwd mininu minilam nu lam x = bc2_fwd nu lam x) /\
+   (forall y, bc1nu_bwd mininu minilam nu lam y = bc2_bwd nu lam y) /\
+   (forall x, bc1nu_jac mininu minilam nu lam x = bc2_jac mininu nu lam x)) /\
+  (forall x, 0 < x + nu ->
+     bc1nu_bwd mininu minilam nu lam (bc1nu_fwd mininu minilam nu lam x) = x) /\
+  (forall y, (EPS < Rabs lam -> 0 < lam * y + 1) ->
+     bc1nu_fwd mininu minilam nu lam (bc1nu_bwd mininu minilam nu lam y) = y).
+Proof.
+  intros mininu minilam nu lam H.
+  exact (conj (bc1nu_is_bc2 _ _ _ _ H)
+          (conj (fun x => bc1nu_bwd_fwd _ _ _ _ x H) (fun y => bc1nu_fwd_bwd _ _ _ _ y H))).
+Qed.
+Print Assumptions C01_boxcox1nu_invertible.
 
 (* ---- BoxCox2sym : ALL real x (through 0), 0 < nu ---- *)
-Theorem C01_boxcox2sym_bwd_fwd : forall mininu minilam nu lam x,
+Theorem C01_boxcox2sym_invertible : forall mininu minilam nu lam,
   bc2sym_params_ok mininu minilam nu lam -> 0 < nu ->
-  bc2sym_bwd mininu minilam nu lam (bc2sym_fwd mininu minilam nu lam x) = x.
-Proof. exact bc2sym_bwd_fwd. Qed.
-Print Assumptions C01_boxcox2sym_bwd_fwd.
-Theorem C01_boxcox2sym_fwd_bwd : forall mininu minilam nu lam y,
-  bc2sym_params_ok mininu minilam nu lam -> 0 < nu ->
-  (EPS < Rabs lam -> 0 < lam * (Rabs y + bc2_fwd nu lam 0) + 1) ->
-  bc2sym_fwd mininu minilam nu lam (bc2sym_bwd mininu minilam nu lam y) = y.
-Proof. exact bc2sym_fwd_bwd. Qed.
-Print Assumptions C01_boxcox2sym_fwd_bwd.
-Example C01_boxcox1_nonvacuous :
-  bc1lam_params_ok EPS 0 1 0 /\ bc1nu_params_ok EPS 0 1 0 /\ bc2sym_params_ok EPS 0 1 0 /\
-  0 < 1 + 1 /\ (0 : R) < 1.
-Proof. exact ex_bc1. Qed.
-Print Assumptions C01_boxcox1_nonvacuous.
-Example C01_boxcox2sym_image_nonvacuous :
-  EPS < Rabs 0 -> 0 < 0 * (Rabs (-3) + bc2_fwd 1 0 0) + 1.
-Proof. exact ex_bc2sym_image. Qed.
-Print Assumptions C01_boxcox2sym_image_nonvacuous.
+  (forall x, bc2sym_bwd mininu minilam nu lam (bc2sym_fwd mininu minilam nu lam x) = x) /\
+  (forall y, (EPS < Rabs lam -> 0 < lam * (Rabs y + bc2_fwd nu lam 0) + 1) ->
+     bc2sym_fwd mininu minilam nu lam (bc2sym_bwd mininu minilam nu lam y) = y).
+Proof.
+  intros mininu minilam nu lam H Hnu.
+  exact (conj (fun x => bc2sym_bwd_fwd _ _ _ _ x H Hnu) (fun y => bc2sym_fwd_bwd _ _ _ _ y H Hnu)).
+Qed.
+Print Assumptions C01_boxcox2sym_invertible.
 
-(* ---- YeoJohnson : every lam (lam = 0 and lam = 2 branches included).
+(* ---- YeoJohnson : every lam (the lam = 0 and lam = 2 branches included).
    Forward switches on w = nu + scale*x >= EPS, backward on y >= EPS: exact
    invertibility needs both to take the same side (it is FALSE in a band of
    relative width ~1e-10 above w = EPS when lam < 1; DESIGN 5/C01 G); the
-   hypothesis holds for every w <= 0. ---- *)
-Theorem C01_yeojohnson_bwd_fwd : forall nu scale lam x,
-  yj_params_ok nu scale lam -> yj_same_side lam (yj_w nu scale x) ->
-  yj_bwd nu scale lam (yj_fwd nu scale lam x) = x.
-Proof. exact yj_bwd_fwd. Qed.
-Print Assumptions C01_yeojohnson_bwd_fwd.
-Theorem C01_yeojohnson_fwd_bwd : forall nu scale lam y,
-  yj_params_ok nu scale lam -> yj_same_side_bwd lam y -> yj_image lam y ->
-  yj_fwd nu scale lam (yj_bwd nu scale lam y) = y.
-Proof. exact yj_fwd_bwd. Qed.
-Print Assumptions C01_yeojohnson_fwd_bwd.
-Theorem C01_yeojohnson_same_side_nonpos : forall lam w, w <= 0 -> yj_same_side lam w.
-Proof. exact yj_same_side_nonpos. Qed.
-Print Assumptions C01_yeojohnson_same_side_nonpos.
-Example C01_yeojohnson_nonvacuous :
-  yj_params_ok 0 1 2 /\ yj_same_side 2 (yj_w 0 1 (-1)) /\ isclose 2 2 = true /\
-  yj_params_ok 0 1 0 /\ yj_same_side 0 (yj_w 0 1 0) /\ isclose 0 0 = true.
-Proof. exact ex_yj. Qed.
-Print Assumptions C01_yeojohnson_nonvacuous.
-Example C01_yeojohnson_pos_nonvacuous : yj_same_side 1 (yj_w 0 1 1) /\ isclose 1 0 = false.
-Proof. exact ex_yj_pos. Qed.
-Print Assumptions C01_yeojohnson_pos_nonvacuous.
-Example C01_yeojohnson_image_nonvacuous : yj_image 2 (-1) /\ yj_same_side_bwd 2 (-1).
-Proof. exact ex_yj_image. Qed.
-Print Assumptions C01_yeojohnson_image_nonvacuous.
+   hypothesis holds for every w <= 0 (third conjunct). ---- *)
+Theorem C01_yeojohnson_invertible :
+  (forall nu scale lam x, yj_params_ok nu scale lam -> yj_same_side lam (yj_w nu scale x) ->
+     yj_bwd nu scale lam (yj_fwd nu scale lam x) = x) /\
+  (forall nu scale lam y, yj_params_ok nu scale lam -> yj_same_side_bwd lam y -> yj_image lam y ->
+     yj_fwd nu scale lam (yj_bwd nu scale lam y) = y) /\
+  (forall lam w, w <= 0 -> yj_same_side lam w).
+Proof. exact (conj yj_bwd_fwd (conj yj_fwd_bwd yj_same_side_nonpos)). Qed.
+Print Assumptions C01_yeojohnson_invertible.
 
 (* ---- LogSinh : domain = the np.where guard  x/xmax > -a/b + EPS ---- *)
-Theorem C01_logsinh_bwd_fwd : forall loga logb xmax x,
-  logsinh_params_ok loga logb xmax ->
-  logsinh_guard loga logb xmax x = true ->
-  exists y, logsinh_fwd loga logb xmax x = Some y /\ logsinh_bwd loga logb xmax y = x.
-Proof. exact logsinh_bwd_fwd. Qed.
-Print Assumptions C01_logsinh_bwd_fwd.
-Theorem C01_logsinh_fwd_bwd : forall loga logb xmax y,
-  logsinh_params_ok loga logb xmax ->
-  logsinh_guard loga logb xmax (logsinh_bwd loga logb xmax y) = true ->
-  logsinh_fwd loga logb xmax (logsinh_bwd loga logb xmax y) = Some y.
-Proof. exact logsinh_fwd_bwd. Qed.
-Print Assumptions C01_logsinh_fwd_bwd.
-Example C01_logsinh_nonvacuous :
-  logsinh_params_ok (-1) 0 1 /\ logsinh_guard (-1) 0 1 1 = true.
-Proof. exact ex_logsinh. Qed.
-Print Assumptions C01_logsinh_nonvacuous.
+Theorem C01_logsinh_invertible :
+  (forall loga logb xmax x, logsinh_params_ok loga logb xmax ->
+     logsinh_guard loga logb xmax x = true ->
+     exists y, logsinh_fwd loga logb xmax x = Some y /\ logsinh_bwd loga logb xmax y = x) /\
+  (forall loga logb xmax y, logsinh_params_ok loga logb xmax ->
+     logsinh_guard loga logb xmax (logsinh_bwd loga logb xmax y) = true ->
+     logsinh_fwd loga logb xmax (logsinh_bwd loga logb xmax y) = Some y).
+Proof. exact (conj logsinh_bwd_fwd logsinh_fwd_bwd). Qed.
+Print Assumptions C01_logsinh_invertible.
 
 (* ---- Reciprocal (repaired backward guard y < 0) : domain -nu < x, image y < 0 ---- *)
-Theorem C01_reciprocal_bwd_fwd : forall nu x,
-  - nu < x -> exists y, recip_fwd nu x = Some y /\ recip_bwd nu y = Some x.
-Proof. exact recip_bwd_fwd. Qed.
-Print Assumptions C01_reciprocal_bwd_fwd.
-Theorem C01_reciprocal_fwd_bwd : forall nu y,
-  y < 0 -> exists x, recip_bwd nu y = Some x /\ recip_fwd nu x = Some y.
-Proof. exact recip_fwd_bwd. Qed.
-Print Assumptions C01_reciprocal_fwd_bwd.
-(* the pinned guard `y < -mininu` returns NaN for every x >= 1/mininu - nu *)
-Theorem C01_reciprocal_pinned_loses : forall mininu nu x,
-  - nu < x -> 0 < mininu -> 1 / mininu - nu <= x ->
-  exists y, recip_fwd nu x = Some y /\ recip_bwd_pinned mininu nu y = None.
-Proof. exact recip_pinned_loses. Qed.
-Print Assumptions C01_reciprocal_pinned_loses.
+Theorem C01_reciprocal_invertible :
+  (forall nu x, - nu < x -> exists y, recip_fwd nu x = Some y /\ recip_bwd nu y = Some x) /\
+  (forall nu y, y < 0 -> exists x, recip_bwd nu y = Some x /\ recip_fwd nu x = Some y).
+Proof. exact (conj recip_bwd_fwd recip_fwd_bwd). Qed.
+Print Assumptions C01_reciprocal_invertible.
+
+(* the pinned guard `y < -mininu` returns NaN for every x >= 1/mininu - nu;
+   witness inside the bounds: mininu = 1, nu = 2, x = 1/2 *)
 Theorem C01_reciprocal_pinned_refuted :
-  exists mininu nu x, recip_params_ok mininu nu /\ - nu < x /\
-    exists y, recip_fwd nu x = Some y /\ recip_bwd_pinned mininu nu y = None.
-Proof. exact recip_pinned_refuted. Qed.
+  (forall mininu nu x, - nu < x -> 0 < mininu -> 1 / mininu - nu <= x ->
+     exists y, recip_fwd nu x = Some y /\ recip_bwd_pinned mininu nu y = None) /\
+  (exists mininu nu x, recip_params_ok mininu nu /\ - nu < x /\
+     exists y, recip_fwd nu x = Some y /\ recip_bwd_pinned mininu nu y = None).
+Proof. exact (conj recip_pinned_loses recip_pinned_refuted). Qed.
 Print Assumptions C01_reciprocal_pinned_refuted.
 
 (* ---- Softmax : 2-D arrays, rows of positive entries with sum <= 1 - EPS ---- *)
-Theorem C01_softmax_bwd_fwd : forall xs,
-  softmax_dom xs -> exists ys, softmax_fwd xs = Some ys /\ softmax_bwd ys = xs.
-Proof. exact softmax_bwd_fwd. Qed.
-Print Assumptions C01_softmax_bwd_fwd.
-Theorem C01_softmax_fwd_bwd : forall ys,
-  Forall (fun y => rsum (softmax_bwd_row y) <= 1 - EPS) ys ->
-  softmax_fwd (softmax_bwd ys) = Some ys.
-Proof. exact softmax_fwd_bwd. Qed.
-Print Assumptions C01_softmax_fwd_bwd.
-Theorem C01_softmax_fwd_bwd_row : forall y, softmax_fwd_row (softmax_bwd_row y) = y.
-Proof. exact softmax_fwd_bwd_row. Qed.
-Print Assumptions C01_softmax_fwd_bwd_row.
-Theorem C01_softmax_bwd_row_in_simplex : forall y,
-  row_pos (softmax_bwd_row y) /\ rsum (softmax_bwd_row y) < 1.
-Proof. intros y; exact (conj (softmax_bwd_row_pos y) (softmax_bwd_row_sum y)). Qed.
-Print Assumptions C01_softmax_bwd_row_in_simplex.
-Example C01_softmax_nonvacuous : softmax_dom [[1/4; 1/4]; [1/2]].
-Proof. exact ex_softmax. Qed.
-Print Assumptions C01_softmax_nonvacuous.
+Theorem C01_softmax_invertible :
+  (forall xs, softmax_dom xs -> exists ys, softmax_fwd xs = Some ys /\ softmax_bwd ys = xs) /\
+  (forall ys, Forall (fun y => rsum (softmax_bwd_row y) <= 1 - EPS) ys ->
+     softmax_fwd (softmax_bwd ys) = Some ys) /\
+  (forall y, softmax_fwd_row (softmax_bwd_row y) = y) /\
+  (forall y, row_pos (softmax_bwd_row y) /\ rsum (softmax_bwd_row y) < 1).
+Proof.
+  exact (conj softmax_bwd_fwd (conj softmax_fwd_bwd (conj softmax_fwd_bwd_row
+          (fun y => conj (softmax_bwd_row_pos y) (softmax_bwd_row_sum y))))).
+Qed.
+Print Assumptions C01_softmax_invertible.
 
 (* ---- Sinh : all reals, scale >= its extracted minimum (> 0) ---- *)
-Theorem C01_sinh_bwd_fwd : forall nu scale x,
-  sinh_params_ok nu scale -> sinh_bwd nu scale (sinh_fwd nu scale x) = x.
-Proof. exact sinh_bwd_fwd. Qed.
-Print Assumptions C01_sinh_bwd_fwd.
-Theorem C01_sinh_fwd_bwd : forall nu scale y,
-  sinh_params_ok nu scale -> sinh_fwd nu scale (sinh_bwd nu scale y) = y.
-Proof. exact sinh_fwd_bwd. Qed.
-Print Assumptions C01_sinh_fwd_bwd.
-Example C01_sinh_nonvacuous : sinh_params_ok 0 1.
-Proof. exact ex_sinh. Qed.
-Print Assumptions C01_sinh_nonvacuous.
+Theorem C01_sinh_invertible :
+  (forall nu scale x, sinh_params_ok nu scale -> sinh_bwd nu scale (sinh_fwd nu scale x) = x) /\
+  (forall nu scale y, sinh_params_ok nu scale -> sinh_fwd nu scale (sinh_bwd nu scale y) = y).
+Proof. exact (conj sinh_bwd_fwd sinh_fwd_bwd). Qed.
+Print Assumptions C01_sinh_invertible.
 
 (* ---- Manly (repaired: branch test abs(lam) > EPS) : every lam, lam = 0 included ---- *)
-Theorem C01_manly_bwd_fwd : forall lam xmax x,
-  manly_params_ok lam xmax -> manly_bwd lam xmax (manly_fwd lam xmax x) = x.
-Proof. exact manly_bwd_fwd. Qed.
-Print Assumptions C01_manly_bwd_fwd.
-Theorem C01_manly_fwd_bwd : forall lam xmax y,
-  manly_params_ok lam xmax -> (EPS < Rabs lam -> 0 < 1 + lam * y) ->
-  manly_fwd lam xmax (manly_bwd lam xmax y) = y.
-Proof. exact manly_fwd_bwd. Qed.
-Print Assumptions C01_manly_fwd_bwd.
-Example C01_manly_nonvacuous :
-  manly_params_ok 0 2 /\ manly_params_ok 1 2 /\ Rltb EPS (Rabs 0) = false /\
-  Rltb EPS (Rabs 1) = true /\ (EPS < Rabs 1 -> 0 < 1 + 1 * 1).
-Proof. exact ex_manly. Qed.
-Print Assumptions C01_manly_nonvacuous.
+Theorem C01_manly_invertible :
+  (forall lam xmax x, manly_params_ok lam xmax -> manly_bwd lam xmax (manly_fwd lam xmax x) = x) /\
+  (forall lam xmax y, manly_params_ok lam xmax -> (EPS < Rabs lam -> 0 < 1 + lam * y) ->
+     manly_fwd lam xmax (manly_bwd lam xmax y) = y).
+Proof. exact (conj manly_bwd_fwd manly_fwd_bwd). Qed.
+Print Assumptions C01_manly_invertible.
+
 (* pinned code (branch test abs(lam - EPS) > 0): an exception at lam = EPS, NaN at lam = 0 *)
-Theorem C01_manly_pinned_refuted_at_eps :
-  exists lam xmax x, manly_params_ok lam xmax /\ manly_fwd_pinned lam xmax x = None.
-Proof. exact manly_pinned_refuted_eps. Qed.
-Print Assumptions C01_manly_pinned_refuted_at_eps.
-Theorem C01_manly_pinned_refuted_at_zero :
-  exists lam xmax x, manly_params_ok lam xmax /\
-    manly_fwd_pinned lam xmax x = None /\ manly_bwd_pinned lam xmax x = None.
-Proof. exact manly_pinned_refuted_zero. Qed.
-Print Assumptions C01_manly_pinned_refuted_at_zero.
+Theorem C01_manly_pinned_refuted :
+  (exists lam xmax x, manly_params_ok lam xmax /\ manly_fwd_pinned lam xmax x = None) /\
+  (exists lam xmax x, manly_params_ok lam xmax /\
+     manly_fwd_pinned lam xmax x = None /\ manly_bwd_pinned lam xmax x = None).
+Proof. exact (conj manly_pinned_refuted_eps manly_pinned_refuted_zero). Qed.
+Print Assumptions C01_manly_pinned_refuted.
 
 (* ---- backward_censored of the base class, for any transform whose forward is
-   increasing and whose backward inverts it ---- *)
+   increasing and whose backward inverts it: max(x, censor); with a censor value
+   outside the domain (forward gives NaN): plain backward floored at censor ---- *)
 Theorem C01_backward_censored : forall (fwd bwd : R -> option R),
-  (forall x y, fwd x = Some y -> bwd y = Some x) ->
-  (forall x1 x2 y1 y2, fwd x1 = Some y1 -> fwd x2 = Some y2 -> x1 <= x2 -> y1 <= y2) ->
-  forall censor tc x y, fwd censor = Some tc -> fwd x = Some y ->
-  backward_censored fwd bwd censor y = Some (Rmax x censor).
-Proof. exact backward_censored_spec. Qed.
+  ((forall x y, fwd x = Some y -> bwd y = Some x) ->
+   (forall x1 x2 y1 y2, fwd x1 = Some y1 -> fwd x2 = Some y2 -> x1 <= x2 -> y1 <= y2) ->
+   forall censor tc x y, fwd censor = Some tc -> fwd x = Some y ->
+   backward_censored fwd bwd censor y = Some (Rmax x censor)) /\
+  (forall censor y, fwd censor = None ->
+   backward_censored fwd bwd censor y = omax (bwd y) censor).
+Proof.
+  intros fwd bwd.
+  exact (conj (backward_censored_spec fwd bwd) (backward_censored_nan fwd bwd)).
+Qed.
 Print Assumptions C01_backward_censored.
-Theorem C01_backward_censored_nan : forall (fwd bwd : R -> option R) censor y,
-  fwd censor = None -> backward_censored fwd bwd censor y = omax (bwd y) censor.
-Proof. exact backward_censored_nan. Qed.
-Print Assumptions C01_backward_censored_nan.
+
+(* ---- non-vacuity: every hypothesis above is met by a concrete instance at a
+   branch value of the parameters (one conjunct per class, in the order above) ---- *)
+Example C01_nonvacuous :
+  (* Logit *) (logit_params_ok 0 0 /\ 0 < 1 / 2 < 0 + exp 0) /\
+  (* Log: base 10, natural log *)
+  (log_base_ok (Some 10) /\ log_base_ok None /\ log_params_ok EPS EPS /\ 0 < 1 + EPS) /\
+  (* BoxCox2: lam = 0, lam = EPS (log branch), lam = 2 EPS (power branch) *)
+  (bc2_params_ok EPS 0 EPS 0 /\ bc2_params_ok EPS 0 EPS EPS /\ bc2_params_ok EPS 0 EPS (2 * EPS) /\
+   0 < 1 + EPS /\ Rltb EPS (Rabs 0) = false /\ Rltb EPS (Rabs EPS) = false /\
+   Rltb EPS (Rabs (2 * EPS)) = true) /\
+  ((EPS < Rabs 1 -> 0 < 1 * 1 + 1) /\ (EPS < Rabs 0 -> 0 < 0 * 1 + 1)) /\
+  (* BoxCox1lam, BoxCox1nu, BoxCox2sym at lam = 0 *)
+  (bc1lam_params_ok EPS 0 1 0 /\ bc1nu_params_ok EPS 0 1 0 /\ bc2sym_params_ok EPS 0 1 0 /\
+   0 < 1 + 1 /\ (0 : R) < 1) /\
+  (EPS < Rabs 0 -> 0 < 0 * (Rabs (-3) + bc2_fwd 1 0 0) + 1) /\
+  (* YeoJohnson: lam = 2 at w = -1, lam = 0 at w = 0, lam = 1 at w = 1, image at lam = 2 *)
+  (yj_params_ok 0 1 2 /\ yj_same_side 2 (yj_w 0 1 (-1)) /\ isclose 2 2 = true /\
+   yj_params_ok 0 1 0 /\ yj_same_side 0 (yj_w 0 1 0) /\ isclose 0 0 = true) /\
+  (yj_same_side 1 (yj_w 0 1 1) /\ isclose 1 0 = false) /\
+  (yj_image 2 (-1) /\ yj_same_side_bwd 2 (-1)) /\
+  (* LogSinh *) (logsinh_params_ok (-1) 0 1 /\ logsinh_guard (-1) 0 1 1 = true) /\
+  (* Softmax *) softmax_dom [[1/4; 1/4]; [1/2]] /\
+  (* Sinh *) sinh_params_ok 0 1 /\
+  (* Manly: lam = 0 (identity branch), lam = 1 (exponential branch) *)
+  (manly_params_ok 0 2 /\ manly_params_ok 1 2 /\ Rltb EPS (Rabs 0) = false /\
+   Rltb EPS (Rabs 1) = true /\ (EPS < Rabs 1 -> 0 < 1 + 1 * 1)).
+Proof.
+  exact (conj ex_logit (conj ex_log (conj ex_bc2 (conj ex_bc2_image (conj ex_bc1
+        (conj ex_bc2sym_image (conj ex_yj (conj ex_yj_pos (conj ex_yj_image (conj ex_logsinh
+        (conj ex_softmax (conj ex_sinh ex_manly)))))))))))).
+Qed.
+Print Assumptions C01_nonvacuous.
